@@ -13,6 +13,7 @@ import (
 	"bytes"
 	"context"
 	"crypto"
+	"crypto/sha256"
 	"crypto/tls"
 	"crypto/x509"
 	"errors"
@@ -69,6 +70,10 @@ import (
 
 // SigningKeys are the pool keys configured as signing keys (each under its own name).
 var SigningKeys = []string{"rsa2048a", "rsa3072", "p256a", "p384a", "p521a"}
+
+// AltKeys are additional key entries that share the key file of a signing key but carry
+// another certificate (X.509 only).
+var AltKeys = []string{"rsa2048a-alt", "p256a-alt"}
 
 type Env struct {
 	Dir       string
@@ -131,6 +136,19 @@ func Setup(dir string) (*Env, error) {
 			kc.PgpCertificate = pgpPath
 		}
 		cfg.Keys[k] = kc
+	}
+	// a second key entry over the same private key file with another certificate (same
+	// public key, another subject): which certificate a signature carries must follow
+	// the requested key name, not the key file
+	for _, k := range AltKeys {
+		base := strings.TrimSuffix(k, "-alt")
+		leaf := e.Inter.Issue(keys.Key(base).Public(), keys.LeafOpts{CN: "verif second identity " + base})
+		e.Leaf[k] = leaf
+		crtPath := filepath.Join(dir, k+".crt")
+		if err := os.WriteFile(crtPath, keys.CertPEM(leaf, e.Inter.Cert, e.Root.Cert), 0o644); err != nil {
+			return nil, err
+		}
+		cfg.Keys[k] = &config.KeyConfig{Token: "file", KeyFile: cfg.Keys[base].KeyFile, X509Certificate: crtPath, Roles: []string{"signer"}}
 	}
 	// TLS material for the server pipeline
 	srvCert := keys.SelfSignedServer("localhost", keys.Key("p256b"))
@@ -556,6 +574,27 @@ func (e *Env) Verify(v *VerifyReq) (out []Verified, err error) {
 	return VerifyRaw(&vv)
 }
 
+var pools sync.Map // root set -> *x509.CertPool
+
+// poolFor returns one pool per set of roots for the life of the process, the way one
+// "relic verify a b c" invocation uses one pool for all its files.
+func poolFor(roots []*x509.Certificate) *x509.CertPool {
+	h := sha256.New()
+	for _, c := range roots {
+		h.Write(c.Raw)
+	}
+	key := string(h.Sum(nil))
+	if p, ok := pools.Load(key); ok {
+		return p.(*x509.CertPool)
+	}
+	p := x509.NewCertPool()
+	for _, c := range roots {
+		p.AddCert(c)
+	}
+	actual, _ := pools.LoadOrStore(key, p)
+	return actual.(*x509.CertPool)
+}
+
 // VerifyRaw is Verify without defaults and without panic recovery (Roots and PGP as given).
 func VerifyRaw(v *VerifyReq) (out []Verified, err error) {
 	f, err := os.Open(v.Path)
@@ -570,10 +609,7 @@ func VerifyRaw(v *VerifyReq) (out []Verified, err error) {
 	opts := signers.VerifyOpts{FileName: v.Path, Compression: compression, NoChain: v.NoChain, NoDigests: v.NoDigests, Content: v.Content}
 	roots := v.Roots
 	opts.TrustedX509 = roots
-	opts.TrustedPool = x509.NewCertPool()
-	for _, c := range roots {
-		opts.TrustedPool.AddCert(c)
-	}
+	opts.TrustedPool = poolFor(roots)
 	opts.TrustedPgp = v.PGP
 	mod := signers.ByMagic(fileType)
 	if mod == nil {
